@@ -377,3 +377,16 @@ Definition object_to_file_ext_ret (ret : Z) (sched : list xfer) (obj_null : bool
                                   (ser : option (list byte)) : wout * Z * list Z :=
   let '(r, opens, closes) := object_to_file_ext (negb (open_failed ret)) sched obj_null ser in
   (r, opens, if closes =? 1 then [ret] else []).
+
+(* ------------------------------------------------------------------ the open() requests *)
+
+(* What json_util.c asks of open(): path, the flags that decide contents and access ([oflags]),
+   every OTHER flag bit (O_NONBLOCK, O_CLOEXEC, O_SYNC, ...: none is requested; O_NONBLOCK would
+   turn "no data yet" into read() == 0 / EAGAIN, which the read loop takes for end of file / an
+   error), and the creation mode.  As written:
+     json_object_from_file      open(filename, O_RDONLY)
+     json_object_to_file_ext    open(filename, O_WRONLY | O_TRUNC | O_CREAT, 0644)            *)
+Record open_request := mkreq { rq_path : path; rq_flags : oflags; rq_other_bits : Z; rq_mode : option Z }.
+
+Definition from_file_request (p : path) : open_request := mkreq p FROM_FILE_FLAGS 0 None.
+Definition to_file_request (p : path) : open_request := mkreq p TO_FILE_FLAGS 0 (Some 420).   (* 0644 *)
